@@ -20,6 +20,8 @@ func main() {
 		cmdVerify(os.Args[2:])
 	case "check":
 		cmdCheck(os.Args[2:])
+	case "bounded":
+		cmdBounded(os.Args[2:])
 	default:
 		fmt.Println("unknown command")
 		os.Exit(2)
